@@ -80,7 +80,7 @@ class H:
         self.types[t] = schema
         return self.cmd(f"DEFINE {t} FIELDS {schema_text(schema)}", {"kind": "define", "type": t, "schema": schema}, conn)
 
-    def store(self, t, ctx, payload, conn=0, k=None, valid=True, stored=None, **extra):
+    def store(self, t, ctx, payload, conn=0, k=None, valid=True, stored=None, vclass=None, **extra):
         if k is None:
             k = self.next_k
             self.next_k += 1
@@ -89,6 +89,8 @@ class H:
         meta = {"kind": "store", "k": k, "type": t, "ctx": ctx, "payload": payload, "valid": valid}
         if stored is not None:
             meta["stored"] = stored
+        if vclass is not None:
+            meta["vclass"] = vclass
         return self.cmd(f"STORE {t} FOR {ctx_text(ctx)} PAYLOAD {jdump(payload)}", meta, conn, **extra)
 
     def new_k(self):
